@@ -91,9 +91,34 @@ func leaf(kind string, v any) (string, bool) {
 	return "", false
 }
 
-// selectKey: the first @key all of whose fields are present and not all null, with every
-// leaf a valid value of its scalar type. ok=false: this representation is unresolvable.
-func selectKey(ent entDef, rep map[string]any) (kd keyDef, args []string, ok bool) {
+// lenientLeaf: values the GraphQL spec does not accept for the scalar but gqlgen's scalars
+// document as coercible (booleans and numbers to ID / String). Whether such a key is
+// accepted is input coercion (property C02), not index bookkeeping: the reference accepts
+// either answer for them (null + error, or the entity of the coerced key).
+func lenientLeaf(kind string, v any) (string, bool) {
+	if kind != "ID" && kind != "String" {
+		return "", false
+	}
+	switch x := v.(type) {
+	case bool:
+		return strconv.FormatBool(x), true
+	case json.Number:
+		return x.String(), true
+	}
+	return "", false
+}
+
+// selected is what a representation's own key says.
+type selected struct {
+	kd      keyDef
+	args    []string
+	ok      bool     // a key is selected and every component is a valid value of its scalar
+	chosen  bool     // a key is selected (all fields present, not all null); !ok then means a component is null / ill-typed
+	lenient []string // !ok, but gqlgen's lenient scalars coerce every ill-typed component: the coerced arguments
+}
+
+// selectKey: the first @key all of whose fields are present and not all null.
+func selectKey(ent entDef, rep map[string]any) selected {
 	for _, k := range ent.Keys {
 		usable, allNull := true, true
 		vals := make([]any, len(k.Paths))
@@ -111,17 +136,30 @@ func selectKey(ent entDef, rep map[string]any) (kd keyDef, args []string, ok boo
 		if !usable || allNull {
 			continue
 		}
-		args = nil
+		out := selected{kd: k, chosen: true, ok: true}
+		lenientOK := true
 		for i, v := range vals {
-			s, good := leaf(k.Kinds[i], v)
-			if !good {
-				return k, nil, false // the key is selected but a component is null / ill-typed
+			if s, good := leaf(k.Kinds[i], v); good {
+				out.args = append(out.args, s)
+				out.lenient = append(out.lenient, s)
+				continue
 			}
-			args = append(args, s)
+			out.ok = false
+			if s, good := lenientLeaf(k.Kinds[i], v); good {
+				out.lenient = append(out.lenient, s)
+			} else {
+				lenientOK = false
+			}
 		}
-		return k, args, true
+		if out.ok || !lenientOK {
+			out.lenient = nil
+		}
+		if !out.ok {
+			out.args = nil
+		}
+		return out
 	}
-	return keyDef{}, nil, false
+	return selected{}
 }
 
 func q(s string) string { b, _ := json.Marshal(s); return string(b) }
@@ -177,6 +215,13 @@ type Want struct {
 	Type   string `json:"type,omitempty"`     // __typename when it names an entity of the schema
 	Sel    string `json:"resolver,omitempty"` // resolver its own key selects ("" = unresolvable)
 	Key    string `json:"key,omitempty"`
+	// Chosen: the resolver whose @key the representation carries, even when a key component
+	// is ill-typed (Sel is "" then). IllTyped: such a representation.
+	Chosen   string `json:"key_of_resolver,omitempty"`
+	IllTyped bool   `json:"ill_typed_key,omitempty"`
+	// Lenient: for an ill-typed key that gqlgen's scalars coerce, the entity of the coerced key
+	// (accepted as an alternative answer, see lenientLeaf).
+	Lenient string `json:"lenient_alternative,omitempty"`
 }
 
 type Ref struct {
@@ -194,12 +239,7 @@ func (f *Fault) hits(resolver, key string) bool {
 // Reference evaluates every representation on its own.
 func Reference(mode string, reps []map[string]any, fault *Fault) *Ref {
 	r := &Ref{Want: make([]Want, len(reps))}
-	type res struct {
-		kd   keyDef
-		args []string
-		ok   bool
-	}
-	sel := make([]res, len(reps))
+	sel := make([]selected, len(reps))
 	for i, rep := range reps {
 		w := &r.Want[i]
 		w.Status = "fail"
@@ -209,11 +249,25 @@ func Reference(mode string, reps []map[string]any, fault *Fault) *Ref {
 			continue
 		}
 		w.Type = typ
-		kd, args, ok := selectKey(ent, rep)
-		sel[i] = res{kd, args, ok}
-		if ok {
-			w.Sel = kd.Resolver
-			w.Key = strings.Join(args, ",")
+		sel[i] = selectKey(ent, rep)
+		if sel[i].chosen {
+			w.Chosen = sel[i].kd.Resolver
+			w.IllTyped = !sel[i].ok
+		}
+		if sel[i].ok {
+			w.Sel = sel[i].kd.Resolver
+			w.Key = strings.Join(sel[i].args, ",")
+		} else if sel[i].lenient != nil {
+			weight := 0
+			good := true
+			if ent.Requires {
+				ws, ok := leaf("Int", rep["weight"])
+				good = ok
+				weight, _ = strconv.Atoi(ws)
+			}
+			if good {
+				w.Lenient = valueJSON(mode, typ, sel[i].kd, sel[i].lenient, weight)
+			}
 		}
 	}
 	// the batch a multi representation belongs to: same type, same selected resolver
@@ -302,9 +356,9 @@ func Reference(mode string, reps []map[string]any, fault *Fault) *Ref {
 // Every failed element needs an error; errors carry no index (gqlgen reports them on path
 // ["_entities"]), and one failing batch call yields one error for all its representations,
 // so failed representations of one multi-resolver type may share an error.
-func (r *Ref) ErrBounds(skip map[int]bool) (lo, hi int) {
+func ErrBounds(want []Want, skip map[int]bool) (lo, hi int) {
 	multiFailed := map[string]bool{}
-	for i, w := range r.Want {
+	for i, w := range want {
 		if skip[i] {
 			continue
 		}
